@@ -275,6 +275,22 @@ def check_derived(spec, ctx):
                 if rm.loc_strand(X.parent.location) == "-":
                     ctx.label("append_minus")
                 consistent(ctx, "append", nxt, g, exp)
+                # pieces that cannot be one stretch of the parent are refused, or (if accepted) the result is still consistent: the
+                # same two pieces in the WRONG order, and a piece of another alphabet
+                for nm_, thunk, want in (("reversed_order", lambda: Y.append(X), cur_str[c:d] + cur_str[a:b]),
+                                         ("other_alphabet", lambda: X.append(Sequence(str(Y), Alphabet.NT_EXTENDED if alpha != "NT_EXTENDED" else Alphabet.NT_STRICT_GAPPED, parent=Y.parent)), None)):
+                    try:
+                        bad = thunk()
+                    except ValueError:
+                        ctx.label("incompatible_append_refused:" + nm_)
+                        continue
+                    except BioCantorException:
+                        continue
+                    if want is None:
+                        ctx.fail("append_of_another_alphabet_accepted", str(bad)[:40])
+                    elif c > b or len(rm.blocks_of_set(set(rm.loc_positions(X.parent.location)) | set(rm.loc_positions(Y.parent.location)))) >= 1:
+                        # accepted: then it must be a sequence whose recorded location spells it
+                        consistent(ctx, "append_in_the_wrong_order_accepted", bad, g, want, zero_ok=False)
                 cur, cur_str = nxt, exp
         except BioCantorException as e:
             # a documented refusal of a well-formed request is only acceptable for zero-length material
